@@ -1,5 +1,6 @@
 #!/bin/sh
 # confirm_seed.sh <srcdir with patch.diff demo.py meta.json> <id> [checks...]
+# (QV_VERIF=<copy of /verif> runs the checks from a frozen copy, so that /verif can be edited meanwhile)
 # Confirms a seeded change in a scratch worktree (demo passes without / fails with the patch,
 # baseline tests still pass), runs the named checks against it, and stores it under /verif/seeded/<id>/.
 src="$1"; id="$2"; shift 2
@@ -15,7 +16,7 @@ r1=$(PYTHONPATH="$wt" PYTHONHASHSEED=0 timeout 900 /venv/bin/python "$out/demo.p
 suite=$(/verif/run_suite.sh "$wt" | head -3 | tr '\n' ' ')
 res=""
 for c in "$@"; do
-  o=$(QV_REPO="$wt" /verif/check "$c" --tier quick 2>&1 | grep -E "^(OK|VIOLATION)" | head -1 | cut -c1-120)
+  o=$(QV_REPO="$wt" "${QV_VERIF:-/verif}/check" "$c" --tier quick 2>&1 | grep -E "^(OK|VIOLATION)" | head -1 | cut -c1-120)
   res="$res [$c: $o]"
 done
 cd /verif
